@@ -706,11 +706,23 @@ pub fn take_panics() -> Vec<PanicRec> {
     std::mem::take(&mut *PANICS.lock().unwrap_or_else(|e| e.into_inner()))
 }
 
+/// Panic payload that is not a message (`panic_any` of a user type: an error value, a code).
+#[derive(Debug, Clone, PartialEq, Eq)]
+pub struct InjectedPayload {
+    pub uid: u32,
+    pub token: u64,
+}
+
 pub fn payload_str(p: &(dyn std::any::Any + Send)) -> String {
     if let Some(s) = p.downcast_ref::<&'static str>() {
         (*s).to_string()
     } else if let Some(s) = p.downcast_ref::<String>() {
         s.clone()
+    } else if let Some(x) = p.downcast_ref::<InjectedPayload>() {
+        format!("INJECTED-PANIC uid={} token={} (payload: a struct)", x.uid, x.token)
+    } else if let Some(x) = p.downcast_ref::<u64>() {
+        // integer payloads of the harness: uid in the upper half, token in the lower
+        format!("INJECTED-PANIC uid={} token={} (payload: an integer)", x >> 32, x & 0xffff_ffff)
     } else {
         "<non-string payload>".to_string()
     }
